@@ -4,7 +4,7 @@ cd "$(dirname "$0")/.."
 out=mutants/RESULTS.md
 echo "# Detection of hand-written property-breaking patches (quick tier, $(date -u +%F))" > $out
 echo >> $out; echo '| patch | property | result |' >> $out; echo '|---|---|---|' >> $out
-for m in mutants/c*.diff; do
+for m in mutants/c[0-9]*.diff; do
   p=$(basename $m | cut -c1-3 | tr c C)
   r=$(timeout 1500 tools/mutant.sh $m $p 2>&1 | grep -E '^(DETECTED|MISSED|ERROR|PATCH)' | head -1)
   echo "| $(basename $m) | $p | ${r:-TIMEOUT} |" >> $out
